@@ -580,20 +580,21 @@ def issorted(table, key=None, reverse=False, strict=False):
     except StopIteration:
         flds = []
     if key is None:
-        prev = next(it)
-        for curr in it:
-            if not op(curr, prev):
-                return False
-            prev = curr
+        # compare rows in the same way as sort does when no key is given
+        indices = range(len(flds))
     else:
-        getkey = comparable_itemgetter(*asindices(flds, key))
+        indices = asindices(flds, key)
+    try:
         prev = next(it)
-        prevkey = getkey(prev)
-        for curr in it:
-            currkey = getkey(curr)
-            if not op(currkey, prevkey):
-                return False
-            prevkey = currkey
+    except StopIteration:
+        return True  # no data rows, nothing to compare
+    getkey = comparable_itemgetter(*indices)
+    prevkey = getkey(prev)
+    for curr in it:
+        currkey = getkey(curr)
+        if not op(currkey, prevkey):
+            return False
+        prevkey = currkey
     return True
 
 
